@@ -8,11 +8,12 @@ zip(a.iter(), b.iter()) completely with no early exit, accumulates with OR of XO
 only, and returns ct_zero(acc); Choice::is_true is `== 1`; (3) on the decryption path the MAC
 covers AAD, pad, ciphertext, pad and both lengths (the C06 absorb/pad/trailer/order rules are
 re-evaluated here).
-Not decided: Poly1305 arithmetic; the word-level ct_zero formula (C18)."""
+(4) the Poly1305 structural / bounds rules of C05 and the ChaCha engine value graphs of C03 (shared instances).
+Not decided: the tag as a number; the word-level ct_zero formula (C18)."""
 from . import aead
 
 EXPLANATION = __doc__
-TECHNIQUE = "MIR branch-fact dominance for the verdict, OR-fold accumulator rule, iterator-coverage rule, call-order and wiring rules on the decryption path"
+TECHNIQUE = "interval abstract interpretation over ssa terms with exact carry/remainder relations and trace partitioning on carries (inductive limb-bound invariants, overflow-assert discharge); MIR branch-fact dominance for the verdict, OR-fold accumulator rule, iterator-coverage rule, call-order and wiring rules on the decryption path"
 
 
 def run(ctx):
